@@ -825,6 +825,9 @@ def _cos(x):
 def _tan(x):
     if not isinstance(x, Term):
         return _math.tan(x)
+    if x.const is not None:
+        # the float code relies on tan(math.pi/2) being a huge finite number (1/tan -> 6e-17); keep that value
+        return Term.lift(_math.tan(float(x.const)))
     s, co = trigpair(x)
     return s / co
 
